@@ -319,6 +319,9 @@ impl ZincEncode for Grid {
                 for (i, col) in self.columns.iter().enumerate() {
                     if let Some(tag) = row.get(&col.name) {
                         tag.zinc_encode(writer, InnerGrid::Yes)?;
+                    } else if self.columns.len() == 1 {
+                        // A single empty cell would be a blank line, which is not a row
+                        writer.write_all(b"N")?;
                     }
                     if i < self.columns.len() - 1 {
                         writer.write_all(b",")?;
